@@ -345,8 +345,15 @@ def check_none_guard(p, report, rule="R19.7"):
             if not extra:
                 continue
             tested = ast.unparse(st.test.left)
-            ok = all(tested in {ast.unparse(x) for x in ast.walk(k.value) if isinstance(x, (ast.Name, ast.Attribute))}
-                     for k in extra)
+            fedges = dep_edges(f.node.body)
+
+            def derives(v):
+                direct = {ast.unparse(x) for x in ast.walk(v) if isinstance(x, (ast.Name, ast.Attribute))}
+                if tested in direct:
+                    return True
+                from ..deps import closure
+                return tested in closure({x.id for x in ast.walk(v) if isinstance(x, ast.Name)}, fedges)
+            ok = all(derives(k.value) for k in extra)
             n += 1
             report.add(rule, f.qual, f"`if {norm_stmt(st.test, 40)}` guards the optional argument of {site_id(with_, 40)}",
                        f"{f.file}:{st.lineno}", ok, detail="the tested variable is the one passed" if ok else
